@@ -235,7 +235,7 @@ package ristretto
 //@   holds defaultPolicy
 //@   requires wfLFU(p) && sampleOK(p, in) && len(in) <= 5
 //@   modifies in[*]
-//@   loop 1 invariant len(in0) <= len(in) && len(in) < 5 && (gcSameArray(in, in0) || gcFresh(in))
+//@   loop 1 invariant len(in0) <= len(in) && len(in) < 5 && (gcSameStorage(in, in0) || gcFresh(in))
 //@   loop 1 invariant forall i int :: 0 <= i && i < len(in0) ==> in[i] == old(in0[i])
 //@   loop 1 invariant sampleOK(p, in)
 //@   loop 1 invariant old(sampleDistinct(in0)) ==> sampleDistinct(in)
@@ -243,7 +243,7 @@ package ristretto
 //@   loop 2 invariant forall j int :: 0 <= j && j <= rangeindex && j < len(in) ==> in[j].key != key
 //@   ensures [C09] #prefix len(result) >= len(in) && len(result) <= 5 && forall i int :: 0 <= i && i < len(in) ==> result[i] == old(in[i])
 //@   ensures [C09] #resident sampleOK(p, result)
-//@   ensures #storage gcSameArray(result, in) || gcFresh(result)
+//@   ensures #storage gcSameStorage(result, in) || gcFresh(result)
 //@   ensures [C09,C04] #distinct old(sampleDistinct(in)) ==> sampleDistinct(result)
 
 // ---------------------------------------------------------------- policy.go: defaultPolicy (C03, C09, C13, C17)
@@ -317,6 +317,7 @@ package ristretto
 //@   at call del#1 assert [C09] #victim-below-newcomer tinyEst(p.admit, minKey) <= tinyEst(p.admit, key)
 //@   at call del#1 assert [C09] #victim-least forall j int :: 0 <= j && j < len(sample) ==> tinyEst(p.admit, minKey) <= tinyEst(p.admit, sample[j].key)
 //@   at call roomLeft#2 assert #hint-last len(victims) > 0 && victims[len(victims)-1].Key == minKey
+//@   at call roomLeft#2 assert #hint-older forall i int :: 0 <= i && i < len(victims)-1 ==> victims[i].Key != minKey && !gcHas(p.evict.keyCosts, victims[i].Key)
 //@   at call add#3 assert [C09] #reject-lower tinyEst(p.admit, key) < minHits && forall j int :: 0 <= j && j < len(sample) ==> minHits <= tinyEst(p.admit, sample[j].key)
 //@   ensures [C03] #fits result1 ==> gcMaxCostLast-p.evict.used >= 0 && cost <= gcMaxCostLast
 //@   ensures [C03,C13] #admitted result1 ==> gcHas(p.evict.keyCosts, key) && p.evict.keyCosts[key] == cost && !old(gcHas(p.evict.keyCosts, key))
